@@ -627,11 +627,25 @@ ASSERT_WHITELIST = {
     ("rfc7517.models:BaseKey.get_op_key", "self.private_key is not None"):
         "implied by the dominating check_key_op (truth table verified by C06 R06.2): it raises when reg.private and not is_private, and every key class "
         "derives is_private and private_key from the same isinstance test on raw_value",
-    ("rfc7797.compact:deserialize_compact", "isinstance(obj, CompactSignature)"):
+    ("rfc7797.compact:deserialize_compact", "isinstance($, CompactSignature)"):
         "type narrowing for mypy: _extract_compact returns None, True or a CompactSignature and both other cases return earlier",
-    ("jwk:guess_key", "rv_key.kid is not None"):
+    ("jwk:guess_key", "$.kid is not None"):
         "only on the produce path (use_random) and directly after ensure_kid(), which stores a thumbprint kid when absent (C13 R13.4)",
 }
+
+
+def _shape(eng, fn: FunctionInfo, e: ast.AST) -> str:
+    """text of e with the locals of fn (not parameters, not module names) replaced by `$`: whitelist entries do not depend on
+    today's variable names"""
+    import copy
+    loc = eng.cg.local_names(fn) - set(fn.params)
+
+    class Sub(ast.NodeTransformer):
+        def visit_Name(self, n: ast.Name):
+            if n.id in loc:
+                return ast.copy_location(ast.Name(id="$", ctx=n.ctx), n)
+            return n
+    return norm(Sub().visit(copy.deepcopy(e)))
 
 
 def e3(ctx) -> None:
@@ -647,7 +661,7 @@ def e3(ctx) -> None:
             test = node.test
             txt = norm(test)
             inst = f"{fn.short} :: assert {txt}"
-            w = ASSERT_WHITELIST.get((fn.short, txt))
+            w = ASSERT_WHITELIST.get((fn.short, _shape(eng, fn, test)))
             if w is not None:
                 ctx.ok("E3", inst, "whitelisted: " + w)
                 continue
